@@ -508,3 +508,229 @@ def rule_retrieve_all_branches(db: ProgramDB) -> List[Instance]:
         out.append(inst("RETRIEVE-ALL-BRANCHES", HOLDS, m, "IndexedCache.retrieve",
                         "no level of the walk treats the wildcard branch as an alternative to the concrete ones"))
     return out
+
+
+# ---------------------------------------------------------------------------------- REPLAY-DEDUP
+def _generic_atom(e: ast.AST) -> Optional[str]:
+    """Atoms for satisfiability questions over guards: any name / attribute / call is an atom of its own."""
+    if isinstance(e, ast.Attribute) and isinstance(e.value, ast.Name) and e.value.id == "self" and e.attr == "_is_false_":
+        return "F"
+    if isinstance(e, ast.Call) and call_attr(e) == "_is_duplicate_output_":
+        return "D"
+    if isinstance(e, (ast.Name, ast.Attribute, ast.Call, ast.Subscript)):
+        return "a:" + unparse(e)
+    return None
+
+
+def _atoms_in(tests: List[ast.AST]) -> List[str]:
+    seen = []
+
+    def walk(e):
+        a = _generic_atom(e)
+        if a is not None:
+            if a not in seen:
+                seen.append(a)
+            return
+        for c in ast.iter_child_nodes(e):
+            walk(c)
+    for t in tests:
+        walk(t)
+    return seen
+
+
+def _satisfiable(guards: List[Tuple[ast.AST, bool]], fixed: Dict[str, bool]) -> bool:
+    import itertools
+    from ..boolexpr import eval_bool
+    atoms = [a for a in _atoms_in([g for g, _ in guards]) if a not in fixed]
+    if len(atoms) > 10:
+        raise AnalysisError("too many atoms in a guard chain")
+    for vals in itertools.product([False, True], repeat=len(atoms)):
+        env = dict(fixed)
+        env.update(zip(atoms, vals))
+        if all(bool(eval_bool(t, _generic_atom, env)) == pol for t, pol in guards):
+            return True
+    return False
+
+
+def rule_replay_dedup(db: ProgramDB) -> List[Instance]:
+    """An operator that, for each row of one operand, either evaluates its other operand or replays that operand's rows
+    from a cache must treat both alike: if the evaluating path suppresses duplicates of TRUE rows before it yields, the
+    replay has to suppress them too, otherwise the second evaluation (cache hit) returns rows the first one (cache miss)
+    and every evaluation with caching disabled suppressed."""
+    from ..boolexpr import guards_of
+    out = []
+    bo = db.cls("BinaryOperator")
+    # replay helpers: loop over X.retrieve(...) with a `continue` guarded by the duplicate test
+    helpers: Dict[str, Tuple[FuncInfo, ast.If, str, List[str]]] = {}
+    for c in [bo] + bo.all_subclasses():
+        for m in c.methods.values():
+            if not m.is_generator:
+                continue
+            for loop in [n for n in own_nodes(m.node) if isinstance(n, ast.For)]:
+                it = loop.iter
+                if not (isinstance(it, ast.Call) and call_attr(it) == "retrieve"):
+                    continue
+                if not (isinstance(loop.target, ast.Tuple) and len(loop.target.elts) == 2 and isinstance(loop.target.elts[1], ast.Name)):
+                    continue
+                flag = loop.target.elts[1].id
+                yields_rows = any(isinstance(n, ast.Yield) and n.value is not None and not isinstance(n.value, ast.Tuple)
+                                  for n in ast.walk(loop))
+                if not yields_rows:
+                    continue
+                dedup_if = None
+                for n in ast.walk(loop):
+                    if isinstance(n, ast.If) and any(isinstance(x, ast.Call) and call_attr(x) == "_is_duplicate_output_" for x in ast.walk(n.test)) \
+                            and n.body and isinstance(n.body[-1], ast.Continue):
+                        dedup_if = n
+                helpers[m.name] = (m, loop, dedup_if, flag)
+    if not helpers:
+        raise AnalysisError("no cache-replay helper (loop over <cache>.retrieve(...) that yields rows) found on BinaryOperator")
+
+    def replay_suppresses_true(hname: str, call: ast.Call) -> bool:
+        m, loop, dedup_if, flag = helpers[hname]
+        if dedup_if is None:
+            return False
+        from ..boolexpr import eval_bool
+        from ..facts import bind_args, fn_params
+        bound = bind_args(fn_params(m), call)  # param -> expr
+
+        def atom(e):
+            if isinstance(e, ast.Name) and e.id == flag:
+                return "F"
+            if isinstance(e, ast.Call) and call_attr(e) == "_is_duplicate_output_":
+                return "D"
+            if isinstance(e, ast.Name) and e.id in m.params:
+                return "p:" + e.id
+            return None
+        env = {"F": False, "D": True}
+        g = guards_of(dedup_if, loop.body) or []
+        used = {x.id for t in [dedup_if.test] + [t for t, _ in g] for x in ast.walk(t) if isinstance(x, ast.Name)}
+        for p in [q for q in m.params if q in used]:
+            v = bound.get(p)
+            if v is None:
+                v = m.param_default(p)
+            if isinstance(v, ast.Constant) and isinstance(v.value, bool):
+                env["p:" + p] = v.value
+            else:
+                env["p:" + p] = False if v is None else None
+        if any(val is None for val in env.values()):
+            raise AnalysisError(f"replay call `{unparse(call)}` passes a non-constant flag")
+        try:
+            return all(bool(eval_bool(t, atom, env)) == pol for t, pol in g) and bool(eval_bool(dedup_if.test, atom, env))
+        except AnalysisError:
+            raise
+    n = 0
+    se = db.cls("SymbolicExpression")
+    for c in se.all_subclasses():
+        for m in c.methods.values():
+            if not m.is_generator:
+                continue
+            for call in own_calls(m):
+                hn = call_attr(call)
+                if hn not in helpers or not (isinstance(call.func.value, ast.Name) and call.func.value.id == "self"):
+                    continue
+                # enclosing loop over rows (a per-row replay), and the block the replay statement sits in
+                chain = []
+
+                def find(body, anc):
+                    for s in body:
+                        if any(x is call for x in ast.walk(s)):
+                            chain.append((body, s, anc))
+                            for fld in ("body", "orelse", "finalbody"):
+                                sub = getattr(s, fld, None)
+                                if isinstance(sub, list) and sub and isinstance(sub[0], ast.stmt):
+                                    find(sub, anc + [s])
+                            for h in getattr(s, "handlers", []) or []:
+                                find(h.body, anc + [s])
+                            return
+                find(m.node.body, [])
+                loops = [s for _, s, _ in chain if isinstance(s, ast.For)]
+                if not loops:
+                    continue  # replay of the operator's own output cache for the whole incoming binding
+                loop = loops[-1]
+                # the `if` statement directly holding the replay, and the statements that follow it in its block: the
+                # evaluating path the replay stands for
+                holder = [(body, s) for body, s, _ in chain if isinstance(s, ast.If) and any(x is call for x in ast.walk(s))]
+                if not holder:
+                    continue
+                body, stmt = holder[-1]
+                rest = body[body.index(stmt) + 1:]
+                n += 1
+                live_suppresses = False
+                for s in rest:
+                    for x in ast.walk(s):
+                        if isinstance(x, ast.If) and x.body and isinstance(x.body[-1], ast.Continue) and \
+                                any(isinstance(y, ast.Call) and call_attr(y) == "_is_duplicate_output_" for y in ast.walk(x.test)):
+                            g = guards_of(x, rest) or []
+                            tests = [(t, pol) for t, pol in g] + [(x.test, True)]
+                            if _satisfiable(tests, {"F": False, "D": True}):
+                                live_suppresses = True
+                replay = replay_suppresses_true(hn, call)
+                ok = (not live_suppresses) or replay
+                out.append(inst("REPLAY-DEDUP", HOLDS if ok else VIOLATION, m, f"{m.short}[{unparse(call)[:46]}]",
+                                (f"evaluating path suppresses duplicate true rows: {live_suppresses}; the replay does: {replay}") if ok else
+                                "for each row of the other operand this operator either evaluates the operand (and suppresses "
+                                "duplicates of true rows before yielding) or replays its rows from the cache WITHOUT suppressing "
+                                "them: on a cache hit (the second evaluation) rows come back more often than on the first evaluation "
+                                "or with caching disabled", line=call.lineno))
+    if n == 0:
+        raise AnalysisError("no per-row cache replay site found")
+    return out
+
+
+# ---------------------------------------------------------------------------------- REPLAY-CONTEXT
+def rule_replay_context(db: ProgramDB) -> List[Instance]:
+    """An operand cache is consulted only in the situation for which it is filled.  The right-operand cache of an
+    else-if holds the rows of the right side for bindings on which the left side was FALSE; consulting it before the
+    truth of the left side is looked at answers rows whose left side is true with what the right side said."""
+    import itertools
+    from ..boolexpr import guards_of
+    out = []
+    se = db.cls("SymbolicExpression")
+    n = 0
+    for c in sorted(se.all_subclasses(), key=lambda k: k.qualname):
+        for m in c.methods.values():
+            if not m.is_generator or m.cls is not c:
+                continue
+            for loop in [l for l in own_nodes(m.node) if isinstance(l, ast.For)]:
+                reads = [x for st in loop.body for x in ast.walk(st) if isinstance(x, ast.Call) and call_attr(x) == "check"
+                         and isinstance(x.func.value, ast.Attribute) and isinstance(x.func.value.value, ast.Name)
+                         and x.func.value.value.id == "self"]
+                for rd in reads:
+                    cache = unparse(rd.func.value)
+                    # innermost loop only
+                    if any(isinstance(l2, ast.For) and l2 is not loop and any(x is rd for x in ast.walk(l2)) for st in loop.body for l2 in ast.walk(st)):
+                        continue
+                    writes = [x for st in loop.body for x in ast.walk(st) if isinstance(x, ast.Call) and call_attr(x) in ("update_cache", "insert")
+                              and any(unparse(a) == cache for a in list(x.args) + [k.value for k in x.keywords])]
+                    if not writes:
+                        continue
+                    n += 1
+                    rstmt = _stmt_of(db, rd)
+                    rg = (guards_of(rstmt, loop.body) or [])
+                    wgs = [(guards_of(_stmt_of(db, w), loop.body) or []) for w in writes]
+                    flag_atoms = sorted({a for g in [rg] + wgs for a in _atoms_in([t for t, _ in g])
+                                         if a.startswith("a:self.") and a.endswith("._is_false_") and a != "a:self._is_false_"})
+                    bad = None
+                    for vals in itertools.product([False, True], repeat=len(flag_atoms)):
+                        fixed = dict(zip(flag_atoms, vals))
+                        if _satisfiable(rg, fixed) and not any(_satisfiable(wg, fixed) for wg in wgs):
+                            bad = fixed
+                            break
+                    ok = bad is None
+                    out.append(inst("REPLAY-CONTEXT", HOLDS if ok else VIOLATION, m, f"{m.short}[{unparse(rd)[:44]}]",
+                                    f"`{cache}` is consulted only under operand truth values for which it is also filled" if ok else
+                                    f"`{cache}` is consulted when {', '.join(k[2:] + '=' + str(v) for k, v in bad.items())}, a situation in "
+                                    f"which it is never filled: rows for which the other operand already decided are answered "
+                                    f"from what this operand's cache says (results differ between caching enabled and disabled)",
+                                    line=rd.lineno))
+    if n == 0:
+        raise AnalysisError("no per-row operand cache (check + update_cache on the same cache inside one loop) found")
+    return out
+
+
+def _stmt_of(db: ProgramDB, node: ast.AST) -> ast.stmt:
+    p = node
+    while p is not None and not isinstance(p, ast.stmt):
+        p = db.parent(p)
+    return p
